@@ -12,7 +12,7 @@ import b3
 import vlib
 
 PROP = "C14"
-FAMILIES = ["expr", "scope", "func", "loops", "records", "index", "hof", "multifor", "unset", "emitsnap", "positional", "emitp"]
+FAMILIES = ["expr", "scope", "func", "loops", "records", "index", "hof", "multifor", "unset", "emitsnap", "positional", "emitp", "abskey"]
 
 
 def parse_out(stdout):
